@@ -33,6 +33,7 @@ R = polys.rect          # counter-clockwise in y-up coordinates = positive Clipp
 RECT_FAMILIES = ['rects', 'frames', 'touching-holes', 'ujoin', 'stairs', 'issue-families']
 _RECT_WEIGHTS = [2, 3, 3, 5, 3, 5]
 LATTICES = [2, 2, 3, 4, 10, 1000]
+STATS = dict(dropped=0, deduped=0)
 
 
 # ----------------------------------------------------------------------------- predicates
@@ -839,9 +840,13 @@ def _finish(rng, S, C, k, flip):
     def clean(ps):
         out = []
         for p in ps:
-            p = _dedupe([(int(x), int(y)) for (x, y) in p])
-            if _rect_path_ok(p):
-                out.append(p)
+            q = _dedupe([(int(x), int(y)) for (x, y) in p])
+            if _rect_path_ok(q):
+                out.append(q)
+            else:
+                STATS['dropped'] += 1            # a family produced a degenerate path (self-test reports the count)
+            if q != list(p):
+                STATS['deduped'] += 1
         return out
     S, C = clean(S), clean(C)
     if not S:
@@ -986,7 +991,7 @@ def _gp_nested(rng, max_depth, box, sib):
     R0 = box * rng.range(60, 100) // 100 if depth < 6 else box * rng.range(85, 100) // 100
     out = []
     _nest(rng, rng.range(-box // 10, box // 10), rng.range(-box // 10, box // 10), R0, depth, 1, out, st)
-    S, C = _assign(rng, out, rng.choice(['alt', 'alt', 'same', 'rand', 'rand']), rng.choice([(0, 1), (0, 1), (1, 4), (1, 2)]))
+    S, C = _assign(rng, out, rng.choice(['alt', 'alt', 'alt', 'same', 'rand', 'rand']), rng.choice([(0, 1), (0, 1), (1, 4), (1, 2)]))
     kind = 'siblings' if st['siblings'] else 'nested-d%d' % st['depth']
     return S, C, kind, dict(sub=kind, depth=st['depth'])
 
@@ -1357,7 +1362,8 @@ if __name__ == '__main__':
         S2, C2 = perturb_case(rng, S, C, k)
         assert S2 and is_rectilinear(S2 + C2) and on_lattice(S2 + C2, k) and all(len(p) >= 3 for p in S2 + C2)
     t1 = time.time()
-    print('rectilinear: %d cases in %.1fs' % (N, t1 - t0))
+    print('rectilinear: %d cases in %.1fs; degenerate paths dropped / de-duplicated by _finish: %d / %d' % (
+        N, t1 - t0, STATS['dropped'], STATS['deduped']))
     _print_hist(' kinds', kinds)
     _print_hist(' sub-kinds', subs)
     _print_hist(' lattice k', lat)
